@@ -201,12 +201,18 @@ class _MemoryFile(io.RawIOBase):
         if not self._mode.writing:
             raise IOError("File not open for writing")
         with self._seek_lock():
+            if self._mode.appending:
+                self._bytes_io.seek(0, os.SEEK_END)
             self.on_modify()
             return self._bytes_io.write(data)
 
     def writelines(self, sequence):
         # type: (Iterable[Union[bytes, memoryview, array.array[Any], mmap.mmap]]) -> None  # noqa: E501
+        if not self._mode.writing:
+            raise IOError("File not open for writing")
         with self._seek_lock():
+            if self._mode.appending:
+                self._bytes_io.seek(0, os.SEEK_END)
             self.on_modify()
             self._bytes_io.writelines(sequence)
 
